@@ -1,8 +1,9 @@
-"""Property-level driver: collect targets, generate VCs, discharge, replay, report."""
+"""Property-level driver: collect targets, generate VCs, discharge (in a process pool, one job
+per function under contract), aggregate."""
+import ast
 import glob
-import hashlib
 import importlib.util
-import json
+import multiprocessing as mp
 import os
 import sys
 import time
@@ -13,7 +14,9 @@ import z3
 from . import solve
 from .engine import OutOfSubset
 from .world import World, VERIF
-from .extract import DROPPED, Repo
+from .extract import Repo
+
+_WORLD = None
 
 
 def load_world(repo_root=None):
@@ -24,6 +27,31 @@ def load_world(repo_root=None):
         spec.loader.exec_module(mod)
         mod.register(w)
     return w
+
+
+class VCRec:
+    """Plain-data record of a discharged VC (picklable)."""
+
+    def __init__(self, vc):
+        self.name = vc.name
+        self.kind = vc.kind
+        self.site = vc.site
+        self.note = vc.note
+        self.status = vc.status
+        self.backend = vc.backend
+        self.time = vc.time
+        self.model = vc.model
+        interesting = vc.status != "unsat"
+        self.pc_strs = [c.sexpr()[:300] for c in vc.pc][:80] if interesting else []
+        self.goal_str = vc.goal.sexpr()[:1500] if interesting else ""
+        self.smt2_head = ""
+        if interesting or (vc.kind in ("ensures", "lemma") and vc.backend not in ("simplifier",)):
+            s = z3.Solver()
+            for c in vc.pc[-6:]:
+                s.add(c)
+            s.add(z3.Not(vc.goal))
+            self.smt2_head = s.to_smt2()[:900]
+        self.reachable = None
 
 
 class Obligation:
@@ -44,9 +72,40 @@ class Obligation:
         return "discharged"
 
 
-def targets_for(world, prop):
+def dispatch_signature(world, fi, cls):
+    """What `self.<name>` resolves to for this class: classes with equal signatures execute
+    the same code in this function (and in everything it calls on self), so one verification
+    covers them."""
+    sig = []
     seen = set()
-    out = []
+    todo = [fi]
+    while todo:
+        f = todo.pop()
+        if f.qualname in seen:
+            continue
+        seen.add(f.qualname)
+        for n in ast.walk(f.node):
+            if isinstance(n, ast.Attribute) and isinstance(n.value, ast.Name) and n.value.id == "self":
+                m = world.repo.resolve_method(cls, n.attr)
+                if m is not None:
+                    sig.append((n.attr, m.qualname))
+                    c = world.find_contract(m.qualname, cls)
+                    if c is None or c.inline or m.qualname in world.inline_ok:
+                        todo.append(m)
+                else:
+                    ca = world.repo.class_attr(cls, n.attr)
+                    if ca is not None:
+                        sig.append((n.attr, ast.dump(ca)))
+            if isinstance(n, ast.Call) and isinstance(n.func, ast.Name) and n.func.id in ("type", "super"):
+                sig.append(("type", cls))
+    return tuple(sorted(set(sig)))
+
+
+def jobs_for(world, prop):
+    """[(kind, key, covers)]: targets deduplicated by dispatch signature."""
+    seen = set()
+    groups = {}
+    order = []
     for (q, cls), c in sorted(world.contracts.items(), key=lambda kv: (kv[0][0], kv[0][1] or "")):
         if prop not in c.props or c.assumed or (c.inline and not c.ensures):
             continue
@@ -54,11 +113,25 @@ def targets_for(world, prop):
         if key in seen:
             continue
         seen.add(key)
-        out.append((c, cls))
-    return out
+        fi = world.repo.get(q)
+        if fi is None or cls is None:
+            order.append(("target", (q, cls), [cls]))
+            continue
+        uses_type = any(("type(self)" in cl) for cl in c.ensures + c.requires)
+        sig = (id(c), dispatch_signature(world, fi, cls), cls if uses_type else None)
+        if sig in groups:
+            groups[sig][2].append(cls)
+        else:
+            job = ("target", (q, cls), [cls])
+            groups[sig] = job
+            order.append(job)
+    for name, lem in sorted(world.lemmas.items()):
+        if prop in lem.props:
+            order.append(("lemma", name, []))
+    return order
 
 
-def lemma_vcs(world, lem):
+def lemma_engine(world, lem):
     """A lemma is verified like a function with an empty body."""
     from .engine import Engine, Frame
 
@@ -87,77 +160,121 @@ def lemma_vcs(world, lem):
     return eng
 
 
-def run_property(prop, tier="quick", repo_root=None, verbose=False):
+def _reachable(vcs):
+    """Some normal exit has a satisfiable path condition (checked by a killable back end)."""
+    for v in vcs[:4]:
+        s = z3.Solver()
+        for c in v.pc:
+            s.add(c)
+        st, _, _ = solve.cli_check(s.to_smt2())
+        if st != "unsat":
+            return True
+    return False
+
+
+def run_job(job):
+    """Executed in a worker process."""
+    global _WORLD
+    world = _WORLD
+    kind, key, covers = job
     t0 = time.time()
-    world = load_world(repo_root)
-    report = {
-        "property": prop,
-        "functions": [],
-        "undecided": [],
-        "obligations": {},
-        "assumptions": set(),
-        "inlined": set(),
-        "canaries": [],
-        "npaths": 0,
-    }
-    obligations = {}
-    engines = []
-
-    def add_vcs(eng, target):
-        for vc in eng.vcs.values():
-            ob = obligations.setdefault(vc.name, Obligation(vc.name))
-            ob.vcs.append(vc)
-            ob.kind = vc.kind
-            ob.note = vc.note or ob.note
-            ob.target = target
-        report["assumptions"].update(eng.assumptions_used)
-        report["inlined"].update(eng.inlined)
-        report["npaths"] += eng.npaths
-
-    canary_vcs = []
-    for c, cls in targets_for(world, prop):
-        fi = world.repo.get(c.qualname)
-        tname = "%s%s" % (c.qualname, "" if cls is None or (fi and cls == fi.cls) else " [self: %s]" % cls)
-        try:
+    out = {"job": job, "vcs": [], "canary": [], "undecided": None, "assumptions": [], "inlined": [], "paths": 0,
+           "function": None, "reachable": True, "error": None}
+    try:
+        if kind == "lemma":
+            eng = lemma_engine(world, world.lemmas[key])
+            tname = "lemma:" + key
+            engs = [(eng, False)]
+        else:
+            q, cls = key
+            c = world.find_contract(q, cls) if cls else world.contracts[(q, None)]
+            fi = world.repo.get(q)
+            tname = "%s%s" % (q, "" if cls is None or (fi and cls == fi.cls) else " [self: %s]" % cls)
             eng = world.verify_target(c, cls)
-            add_vcs(eng, tname)
-            report["functions"].append({
+            engs = [(eng, False)]
+            if c.canary:
+                engs.append((world.verify_target(c, cls, canary=True), True))
+            out["function"] = {
                 "function": tname,
+                "covers_self_classes": [x for x in covers if x],
                 "sha256": fi.sha if fi else None,
                 "statements": fi.nstmts() if fi else 0,
                 "paths": eng.npaths,
                 "vcs": len(eng.vcs),
                 "callees_by_contract": sorted(eng.callees_by_contract),
                 "inlined": sorted(eng.inlined),
-            })
-            if c.canary:
-                ceng = world.verify_target(c, cls, canary=True)
-                for vc in ceng.vcs.values():
-                    canary_vcs.append((tname, vc))
-        except OutOfSubset as ex:
-            report["undecided"].append({"function": tname, "reason": "out-of-subset: %s" % ex})
-        except RecursionError as ex:
-            report["undecided"].append({"function": tname, "reason": "recursion limit"})
-    for name, lem in sorted(world.lemmas.items()):
-        if prop in lem.props:
-            try:
-                eng = lemma_vcs(world, lem)
-                add_vcs(eng, "lemma:" + name)
-            except OutOfSubset as ex:
-                report["undecided"].append({"function": "lemma:" + name, "reason": "out-of-subset: %s" % ex})
-    # AST-level (syntactic frame / structure) obligations
+            }
+        out["target"] = tname
+        for eng, is_canary in engs:
+            vcs = list(eng.vcs.values())
+            solve.discharge(vcs, jobs=1, inline_heavy=True, stop_at_sat=is_canary)
+            if is_canary:
+                out["canary"] = [(v.note, v.status) for v in vcs if v.status is not None]
+            else:
+                normal = [v for v in vcs if v.kind in ("ensures", "lemma")]
+                if normal:
+                    out["reachable"] = _reachable(normal)
+                out["vcs"] = [VCRec(v) for v in vcs]
+                out["assumptions"] = sorted(eng.assumptions_used)
+                out["inlined"] = sorted(eng.inlined)
+                out["paths"] = eng.npaths
+    except OutOfSubset as ex:
+        out["undecided"] = "out-of-subset: %s" % ex
+        out.setdefault("target", str(key))
+    except RecursionError:
+        out["undecided"] = "recursion limit"
+        out.setdefault("target", str(key))
+    except Exception:
+        out["error"] = traceback.format_exc()
+        out.setdefault("target", str(key))
+    out["wall"] = time.time() - t0
+    return out
+
+
+def run_property(prop, tier="quick", repo_root=None, verbose=False, jobs=None):
+    global _WORLD
+    t0 = time.time()
+    world = load_world(repo_root)
+    _WORLD = world
+    report = {"property": prop, "functions": [], "undecided": [], "obligations": {}, "assumptions": set(),
+              "inlined": set(), "canaries": [], "npaths": 0, "unreachable": [], "errors": []}
+    joblist = jobs_for(world, prop)
+    nproc = jobs or int(os.environ.get("PYVC_JOBS", "0")) or min(16, os.cpu_count() or 4)
+    if nproc > 1 and len(joblist) > 1:
+        ctx = mp.get_context("fork")
+        with ctx.Pool(min(nproc, len(joblist))) as pool:
+            results = pool.map(run_job, joblist, chunksize=1)
+    else:
+        results = [run_job(j) for j in joblist]
+    obligations = {}
+    for r in results:
+        if r["error"]:
+            report["errors"].append((r["target"], r["error"]))
+            continue
+        if r["undecided"]:
+            report["undecided"].append({"function": r["target"], "reason": r["undecided"]})
+            continue
+        if r["function"]:
+            r["function"]["wall_s"] = round(r["wall"], 2)
+            report["functions"].append(r["function"])
+        for v in r["vcs"]:
+            ob = obligations.setdefault(v.name, Obligation(v.name))
+            ob.vcs.append(v)
+            ob.kind = v.kind
+            ob.note = v.note or ob.note
+            ob.target = r["target"]
+        for note, st in r["canary"]:
+            report["canaries"].append({"function": r["target"], "canary": note, "status": st})
+        if not r["reachable"]:
+            report["unreachable"].append(r["target"])
+        report["assumptions"].update(r["assumptions"])
+        report["inlined"].update(r["inlined"])
+        report["npaths"] += r["paths"]
     ast_results = []
     for (name, props, fn, note) in world.astchecks:
         if prop in props:
-            try:
-                ok, detail = fn(world)
-            except Exception as ex:  # a crash of a syntactic check is a checker error
-                raise
+            ok, detail = fn(world)
             ast_results.append({"name": name, "ok": ok, "detail": detail, "note": note})
-    allvcs = [vc for ob in obligations.values() for vc in ob.vcs]
-    solve.discharge(allvcs + [vc for _, vc in canary_vcs])
-    for tname, vc in canary_vcs:
-        report["canaries"].append({"function": tname, "canary": vc.note, "status": vc.status})
     report["obligations"] = obligations
     report["ast"] = ast_results
     report["wall_s"] = time.time() - t0
